@@ -191,3 +191,48 @@ func Walk(v any, path []any, f func(path []any, v any)) {
 		}
 	}
 }
+
+// EqualIntsExact compares got against want where an integer in want must come
+// back as an integer (of any integer type) of the same value, while a float in
+// want may come back as any number of the same value (2.0 may read back as 2).
+func EqualIntsExact(got, want any) bool {
+	switch w := want.(type) {
+	case map[string]any:
+		g, ok := got.(map[string]any)
+		if !ok || len(g) != len(w) {
+			return false
+		}
+		for k, wv := range w {
+			gv, ok := g[k]
+			if !ok || !EqualIntsExact(gv, wv) {
+				return false
+			}
+		}
+		return true
+	case []any:
+		g, ok := got.([]any)
+		if !ok || len(g) != len(w) {
+			return false
+		}
+		for i := range w {
+			if !EqualIntsExact(g[i], w[i]) {
+				return false
+			}
+		}
+		return true
+	case int, int64:
+		switch got.(type) {
+		case int, int64:
+			return CanonLoose(got) == CanonLoose(want)
+		}
+		return false
+	case float64:
+		switch got.(type) {
+		case int, int64, float64:
+			return CanonLoose(got) == CanonLoose(want)
+		}
+		return false
+	default:
+		return Canon(got) == Canon(want)
+	}
+}
